@@ -57,7 +57,7 @@ def pos_cases(draw):
         elif r == 1:
             claims[n] = draw(st.one_of(st.integers(0, 4 * 10**9), st.floats(0, 4e9)))
     transport = draw(st.sampled_from(["jws", "jws", "jwe"]))
-    hdr = draw(st.fixed_dictionaries({}, optional={"typ": st.sampled_from(["JWT", "at+jwt", "JOSE", "jeton+jwt-é"]), "cty": st.sampled_from(["json", "données", "データ"]),
+    hdr = draw(st.fixed_dictionaries({}, optional={"typ": st.sampled_from(["JWT", "at+jwt", "JOSE", "jeton+jwt-é", "", "0"]), "cty": st.sampled_from(["json", "données", "データ"]),
                                                       "x5t": st.just("dGh1bWI")}))
     if transport == "jws":
         alg = draw(st.sampled_from(gk.JWS_ALGS))
@@ -71,7 +71,7 @@ def pos_cases(draw):
         hdr = {"alg": alg, "enc": enc, **hdr}
         if alg in rjwe.PBES2:
             hdr["p2c"] = 16
-    keymode = draw(st.sampled_from(["key", "key", "keyset", "keyset_kid", "callable", "decode-with-single-key-set", "callable-nested", "keyset_single"]))
+    keymode = draw(st.sampled_from(["key", "key", "keyset", "keyset_kid", "callable", "decode-with-single-key-set", "callable-nested", "keyset_single", "callable-keyset"]))
     if keymode == "keyset_kid":
         hdr["kid"] = "the-key"
     return {"kind": "pos", "claims": claims, "dt": dt, "transport": transport, "header": hdr, "key": gk.key_to_record(key),
@@ -122,7 +122,7 @@ def run_pos(case) -> dict:
         claims[n] = dt
         expected[n] = calendar.timegm(dt.utctimetuple())
     refkey = gk.key_from_record(case["key"])
-    kidp = {"kid": "the-key"} if case["keymode"] in ("keyset", "keyset_kid", "keyset_single") else None
+    kidp = {"kid": "the-key"} if case["keymode"] in ("keyset", "keyset_kid", "keyset_single", "callable-keyset") else None
     role = case.get("role") if case["transport"] == "jws" else None
     if role:
         from gens import jwsplan as _jp
@@ -155,6 +155,9 @@ def run_pos(case) -> dict:
                         raise AssertionError("nested decode wrong")
                 return k
             return resolve
+        if case["keymode"] == "callable-keyset":
+            ks = KeySet([k, decoy])  # the callable hands over the whole set: choosing the key (and recording its kid) is the library's job
+            return lambda obj: ks
         if case["keymode"] == "keyset_single":
             return KeySet([k])       # a set of one key is still a key set: the kid of the key it picks is recorded
         return KeySet([k, decoy])
@@ -204,12 +207,12 @@ def run_pos(case) -> dict:
     want_h = {"typ": "JWT", **before}
     got_h = dict(tok.header)
     extra = set(got_h) - set(want_h)
-    allowed_extra = {"kid"} if case["keymode"] in ("keyset", "keyset_single") else set()
+    allowed_extra = {"kid"} if case["keymode"] in ("keyset", "keyset_single", "callable-keyset") else set()
     if jwe_t:
         allowed_extra |= {"epk", "iv", "tag", "p2s", "p2c"}
     if any(got_h.get(k) != v for k, v in want_h.items()) or not extra <= allowed_extra:
         f[f"C09:header-differs:{tag}"] = f"decoded header {got_h!r}; expected {want_h!r} (+{sorted(allowed_extra)})"
-    if case["keymode"] in ("keyset", "keyset_single") and got_h.get("kid") != "the-key":
+    if case["keymode"] in ("keyset", "keyset_single", "callable-keyset") and got_h.get("kid") != "the-key":
         f[f"C09:kid-of-chosen-key-missing:{tag}"] = f"decoded header {got_h!r} lacks kid 'the-key'"
     # nothing is decoded unless the integrity check of the transport passes: the token with its signature / tag emptied or halved,
     # or with the first character of the payload, ciphertext or IV segment changed, is refused
